@@ -46,8 +46,11 @@ SignWith(d, m32, k) ==
 ZeroSig == << 0, << Zero, Zero >>, 0 >>
 \* nonce sources: <<"rfc", key32, extra>> (default function; extra = <<>> when absent) or
 \* <<"seq", nonces>> (a caller-supplied function that returns nonces[counter+1] and then fails)
+\* <<"rfcskip", key32, extra, skip>> (a caller-written function that answers the first `skip` attempts with an all-zero, hence
+\* invalid, nonce and hands every later attempt -- with the attempt number it was given -- to secp256k1_nonce_function_rfc6979)
 NonceAt(src, m32, c) ==
   IF src[1] = "rfc" THEN << TRUE, Nonce6979(src[2], m32, src[3], << >>, c) >>
+  ELSE IF src[1] = "rfcskip" THEN << TRUE, IF c < src[4] THEN [i \in 1..32 |-> 0] ELSE Nonce6979(src[2], m32, src[3], << >>, c) >>
   ELSE IF c < Len(src[2]) THEN << TRUE, src[2][c+1] >> ELSE << FALSE, << >> >>
 
 \* signing loop: <<ret, sigobj, recid>>
